@@ -299,6 +299,7 @@ func (z *Decimal) usub(x, y *Decimal) {
 
 	// operands may have canceled each other out
 	if len(z.mant) == 0 {
+		verifHit(verifSiteCancel)
 		z.acc = Exact
 		z.form = zero
 		z.neg = false
@@ -1206,6 +1207,7 @@ func (z *Decimal) SetInt64(x int64) *Decimal {
 func (z *Decimal) setExpAndRound(exp int64, sbit uint) {
 	if exp < MinExp {
 		// underflow
+		verifHit(verifSiteUnderflow)
 		z.acc = makeAcc(z.neg)
 		z.form = zero
 		return
@@ -1213,6 +1215,7 @@ func (z *Decimal) setExpAndRound(exp int64, sbit uint) {
 
 	if exp > MaxExp {
 		// overflow
+		verifHit(verifSiteOverflow)
 		z.acc = makeAcc(!z.neg)
 		z.form = inf
 		return
@@ -1545,6 +1548,7 @@ func (z *Decimal) round(sbit uint) {
 	}
 
 	// digits > z.prec: mantissa too large => round
+	verifHit(verifSiteRound)
 	r := uint(digits - z.prec - 1) // rounding digit position r >= 0
 	rdigit := z.mant.digit(r)      // rounding digit
 
@@ -1593,8 +1597,10 @@ func (z *Decimal) round(sbit uint) {
 			// add 1 to mantissa
 			if add10VW(z.mant, z.mant, Word(lsd)) != 0 {
 				// mantissa overflow => adjust exponent
+				verifHit(verifSiteRoundCarry)
 				if z.exp >= MaxExp {
 					// exponent overflow
+					verifHit(verifSiteRoundOverflow)
 					z.form = inf
 					return
 				}
